@@ -87,12 +87,13 @@ class AstGen:
                 m, n = self.instrs(1 + r.below(5), nlocals)
             elif k <= 6:
                 cm, cn = self.cond_push()
-                tm, tn = self.body(depth - 1, nprocs, nlocals, 3)
+                # the parser accepts empty bodies: an empty true branch (with or without else) and an empty else
+                tm, tn = ("", "B 0") if r.chance(1, 6) else self.body(depth - 1, nprocs, nlocals, 3)
                 if r.chance(1, 3):
                     m = "%s if.true %s end" % (cm, tm)
                     n = "I %s B 0" % tn
                 else:
-                    fm, fn = self.body(depth - 1, nprocs, nlocals, 3)
+                    fm, fn = ("", "B 0") if r.chance(1, 8) else self.body(depth - 1, nprocs, nlocals, 3)
                     m = "%s if.true %s else %s end" % (cm, tm, fm)
                     n = "I %s %s" % (tn, fn)
                 ms.append(cm)
@@ -100,7 +101,7 @@ class AstGen:
                 m = m[len(cm) + 1:]
             elif k == 7:
                 cnt = r.choice([0, 1, 2, 3, 5])
-                bm, bn = self.body(depth - 1, nprocs, nlocals, 2)
+                bm, bn = ("", "B 0") if r.chance(1, 8) else self.body(depth - 1, nprocs, nlocals, 2)
                 if cnt == 0:
                     continue  # repeat.0 is rejected by the parser
                 m, n = "repeat.%d %s end" % (cnt, bm), "R %d %s" % (cnt, bn)
@@ -115,10 +116,13 @@ class AstGen:
                 pops = sum((self.table.t[p] for p in pushes), [])
                 ms.append(" ".join(pushes))
                 ns.append("O %d %s" % (len(pops), " ".join(pops)))
-                neutral = r.choice(["push.3 drop", "dup.0 drop", "padw dropw", "swap swap"])
+                neutral = r.choice(["push.3 drop", "dup.0 drop", "padw dropw", "swap swap", ""])
                 self.table.ensure(neutral.split())
                 nops = sum((self.table.t[x] for x in neutral.split()), [])
-                m, n = "while.true %s end" % neutral, "W B 1 O %d %s" % (len(nops), " ".join(nops))
+                if neutral:
+                    m, n = "while.true %s end" % neutral, "W B 1 O %d %s" % (len(nops), " ".join(nops))
+                else:
+                    m, n = "while.true end", "W B 0"
             elif k <= 10 and nprocs > 0:
                 p = r.below(nprocs)
                 if r.chance(3, 4):
